@@ -130,6 +130,48 @@ def run(ctx):
             events.append({"op": "big-sqrt", "a": n2l(sq), "p": n2l(m), "out": n2l(r), "q": n2l((r * r - sq) // m if r * r >= sq else 0),
                            "cls": "1mod8"})
             ctx.nontrivial.add(("hard-sqrt", m, sq))
+    # primes p = 1 (mod 8 * 3 * 5 * ... * q): every prime up to q is a residue, so for a = c^2 the discriminant
+    # b^2 - 4a = (b - 2c)(b + 2c) is a residue for every b up to about q - 2c: the search for the auxiliary value of the
+    # p = 1 (mod 8) branch has to go that far (no fixed bound is enough).  p is found by a Miller-Rabin search in the harness
+    # (construction only); the verdict is TLC's identity r^2 = a + q p on bytes.
+    def smooth_prime(qmax):
+        M = 8
+        for l_ in range(3, qmax + 1, 2):
+            if all(l_ % d_ for d_ in range(3, int(l_ ** 0.5) + 1, 2)):
+                M *= l_
+        k_ = 1
+        while True:
+            cand = k_ * M + 1
+            if all(pow(w, cand - 1, cand) == 1 for w in (2, 3, 5, 7, 11, 13)) and _mr(cand):
+                return cand
+            k_ += 1
+
+    def _mr(nn):
+        d_, s_ = nn - 1, 0
+        while d_ % 2 == 0:
+            d_, s_ = d_ // 2, s_ + 1
+        for w in (2, 3, 5, 7, 11, 13, 17, 19, 23, 29, 31, 37, 41, 43, 47, 53):
+            x_ = pow(w, d_, nn)
+            if x_ in (1, nn - 1):
+                continue
+            for _ in range(s_ - 1):
+                x_ = x_ * x_ % nn
+                if x_ == nn - 1:
+                    break
+            else:
+                return False
+        return True
+    for qmax in ((113, 211) if quick else (47, 113, 211, 307, 401)):
+        m = smooth_prime(qmax)
+        for c_ in (1, 2, 3, 5, 7):
+            sq = c_ * c_
+            try:
+                r = int(nt.square_root_mod_prime(sq, m))
+            except BaseException:  # noqa
+                r = m
+            events.append({"op": "big-sqrt", "a": n2l(sq), "p": n2l(m), "out": n2l(r), "q": n2l((r * r - sq) // m if r * r >= sq else 0),
+                           "cls": "1mod8"})
+            ctx.nontrivial.add(("smooth-sqrt", m, sq))
     # the same residue inverted under different moduli back to back, small and production size
     for a in (2, 3, 5, 7, 255, 65537):
         for m in [11, 13, 257, 101, 46337, 9973] * 2:
